@@ -45,6 +45,7 @@ import Verif.Lemmas.WmptOps
 import Verif.Lemmas.WmptRollback
 import Verif.Lemmas.WmptCopyRoot
 import Verif.Lemmas.WmptProtocol
+import Verif.Lemmas.WmptProtocolRemoval
 import Verif.Lemmas.WmptSpec
 import Verif.Model.WmptHistory
 import Verif.Model.WmptToy
@@ -363,5 +364,34 @@ theorem second_gc_pass_breaks_rollback :
       sameAnswers toyH (hrun toyH ops1).t (reopen toyH (hrun toyH cp).t) ∧
       Res.isOk (blockProof toyH (hrun toyH ops).t 5).2 = false := by
   refine ⟨?_, ?_, ?_, ?_, ?_, ?_⟩ <;> decide
+
+/-! ### the removal clause in history form -/
+
+/-- what `created` lists after a commit of a dirty root was absent from storage before it: "nodes that ONLY this commit put
+    into storage" -/
+theorem C13_created_is_fresh (H : Bytes → Bytes) (p : List HOp) (lvl : Int) (hd : (hrun H p).t.root.dirty = true) :
+    ∀ k ∈ (hrun H (p ++ [.commit lvl])).t.created, (hrun H p).t.store.get k = none :=
+  protocol_created_is_fresh p lvl hd
+
+/-- a commit of a clean root: with pending changes (the commit that emptied the trie, fix 664e48a) the list is reset, without
+    (a periodic flush) it is kept -/
+theorem C13_created_after_clean_commit (H : Bytes → Bytes) (p : List HOp) (lvl : Int)
+    (hd : (hrun H p).t.root.dirty = false) :
+    ((hrun H p).t.pending ≠ [] → (hrun H (p ++ [.commit lvl])).t.created = []) ∧
+    ((hrun H p).t.pending = [] → (hrun H (p ++ [.commit lvl])).t.created = (hrun H p).t.created) :=
+  protocol_created_after_clean_commit p lvl hd
+
+/-- MAIN (removal clause, history form): after ANY accepted Rollback every key the rolled-back commit created is gone from
+    storage, the list is empty, none of the removed keys is a node of the checkpoint, the live content is the checkpoint
+    content and every node of it is in storage -/
+theorem C13_protocol_rollback_removal (H : Bytes → Bytes) (hlen : ∀ x, (H x).length = 32) (p : List HOp)
+    (h : ProtocolOK H (p ++ [.rollback])) :
+    (∀ k ∈ (hrun H p).t.created, (hrun H (p ++ [.rollback])).t.store.get k = none) ∧
+    (hrun H (p ++ [.rollback])).t.created = [] ∧
+    (∀ k ∈ (hrun H p).t.created, k ∉ NL H (pspecRun p).2.2) ∧
+    (pspecRun (p ++ [.rollback])).1 = (pspecRun p).2.2 ∧
+    StoredAll H (hrun H (p ++ [.rollback])).t.store (pspecRun p).2.2 := by
+  obtain ⟨a, b, c, d⟩ := protocol_rollback_removal hlen p h.1 h.2.1 h.2.2.1 h.2.2.2.1 h.2.2.2.2
+  exact ⟨a, b, protocol_rollback_created_disjoint hlen p h.1 h.2.1 h.2.2.1 h.2.2.2.1 h.2.2.2.2, c, d⟩
 
 end Verif.Props.C13
